@@ -42,7 +42,22 @@ Next2 == /\ v_case.kind = "root"
          /\ \E d \in Directed :
               v_case' = [kind |-> "layout", f |-> d[1], t |-> d[2], z |-> d[3], n |-> d[4], al |-> d[5],
                          packets |-> Packets(d[1], d[2], d[3], d[4], d[5])]
-Spec == Init /\ [][Next \/ Next2]_vars
+\* block boundaries of very large objects (Kt*T at and above 2^32 octets): the case gives the boundaries in SYMBOLS - block
+\* sbn covers symbols [BlockStart, BlockStart + BlockSymbols) of the object, i.e. octets [that * T, that * T) - for an object
+\* of F = (Kt - 1) * T + r octets; compared with the public calculate_block_offsets (4.4.1.2: "the tail of the last block is padded")
+BigShapes == {<<32768, 196608, 6, 32768>>, <<32768, 163841, 5, 32645>>, <<32768, 131071, 5, 32759>>, <<65535, 70000, 3, 1>>,
+              <<65528, 80000, 255, 17>>, <<16, 14382765, 255, 16>>, <<4096, 1048577, 19, 1>>, <<1, 1000003, 18, 1>>}
+ASSUME BigValid == \A d \in BigShapes : (d[2] + d[3] - 1) \div d[3] <= 56403 /\ d[4] \in 1..d[1] /\ d[3] <= 255
+Next3 == /\ v_case.kind = "root"
+         /\ \E d \in BigShapes :
+              v_case' = [kind |-> "offsets", t |-> d[1], kt |-> d[2], z |-> d[3], r |-> d[4],
+                         blocks |-> [b \in 1..d[3] |-> <<BlockStart(d[2], d[3], b - 1), BlockStart(d[2], d[3], b - 1) + BlockSymbols(d[2], d[3], b - 1)>>]]
+Spec == Init /\ [][Next \/ Next2 \/ Next3]_vars
+\* the blocks tile the symbols 0..Kt-1 in order, sizes differ by at most one and never grow
+OffsetsOk == v_case.kind = "offsets" =>
+  /\ v_case.blocks[1][1] = 0 /\ v_case.blocks[v_case.z][2] = v_case.kt
+  /\ \A b \in 1..(v_case.z - 1) : /\ v_case.blocks[b][2] = v_case.blocks[b + 1][1]
+                                   /\ (v_case.blocks[b][2] - v_case.blocks[b][1]) - (v_case.blocks[b + 1][2] - v_case.blocks[b + 1][1]) \in {0, 1}
 
 IsCase == v_case.kind = "layout"
 PartitionOk == IsCase =>
@@ -60,5 +75,5 @@ CoversObject == IsCase =>
   IN /\ all = 0..(Kt * T - 1)
      /\ Kt * T - F < T
      /\ \A i \in 1..Len(v_case.packets), q \in 1..T : offs[i][q] >= F => v_case.packets[i][1] = Z - 1
-Emit == IsCase => PrintT(ToJson(v_case))
+Emit == v_case.kind \in {"layout", "offsets"} => PrintT(ToJson(v_case))
 =============================================================================
